@@ -496,6 +496,14 @@ class TermBuilder:
     def opaque(self, e):
         if not self.opaque_ok:
             raise NotATerm("opaque: " + src(e)[:60])
+        # X.shape[k] -> symbol 'X.shape[k]' with X renamed, so that aliases of one operand agree
+        if isinstance(e, ast.Subscript) and isinstance(e.value, ast.Attribute) and e.value.attr == "shape":
+            b = dotted(e.value.value)
+            if b is not None:
+                b2 = self.rename(b + ".shape")
+                return Term.var("%s[%s]" % (b2, src(e.slice)))
+        if isinstance(e, ast.Call) and dotted(e.func) == "cumcount" and len(e.args) == 1:
+            return Term.var("<cumcount(%s)>" % src(e.args[0]))
         return Term.var("<%s>" % src(e))
 
     def binop(self, e):
@@ -820,3 +828,18 @@ def witness(a, b, limit=4000, extra=None):
         if va != vb:
             return {"assignment": {k: int(v) for k, v in zip(syms, vals)}, "found": str(va), "expected": str(vb)}
     return None
+
+
+def equiv(a, b, limit=256):
+    """a == b for every 0/1 assignment of the boolean atoms (needed when indicators sit inside max/min).
+    Returns (True, None) or (False, assignment-of-booleans)."""
+    if a == b:
+        return True, None
+    bools = sorted({x for x in (a.all_atoms() | b.all_atoms()) if x[0] in ("b", "p")}, key=repr)
+    if not bools or 2 ** len(bools) > limit:
+        return False, None
+    for vals in product((0, 1), repeat=len(bools)):
+        m = {x: Term.const(v) for x, v in zip(bools, vals)}
+        if a.subst(m) != b.subst(m):
+            return False, {x[1]: v for x, v in zip(bools, vals)}
+    return True, None
